@@ -1324,7 +1324,8 @@ func (s *runState) opFdstat() {
 	f := s.m.fds[fd]
 	if t.Chance(1, 2) && !s.faulty {
 		// set flags
-		if f != nil && f.drift {
+		drifted := f != nil && f.drift
+		if drifted && f.ino.dir {
 			return
 		}
 		var flags uint32
@@ -1346,6 +1347,14 @@ func (s *runState) opFdstat() {
 		}
 		got, ok := s.call("fd_fdstat_set_flags", uint64(uint32(fd)), uint64(flags))
 		if !ok {
+			return
+		}
+		if drifted && want == 0 && got != 0 {
+			// wazero changes descriptor flags by re-opening the path, which is gone: the call may fail (a
+			// documented limitation), and a call that fails changes nothing: fd_fdstat_get keeps reporting
+			// the flags the descriptor really has
+			s.shape = append(s.shape, "fd_fdstat_set_flags:refused-on-unlinked")
+			s.res.Stat("probe.set_flags_refused_on_a_descriptor_whose_path_is_gone", 1)
 			return
 		}
 		if want == 0 && f.ino.dir && (got == w.EISDIR || got == w.EINVAL) {
